@@ -1,9 +1,10 @@
 import ZCV.Lemmas.Grammar
+import ZCV.Lemmas.Nesting
 /-!
 # C03 — configuration text is read by the documented line grammar and nothing else
 -/
 namespace ZCV.Props.C03
-open ZCV ZCV.Cfg
+open ZCV ZCV.Cfg ZCV.Nesting
 
 /-- the live `_keyvalue_rx`, used as the code uses it, computes the documented key/value split -/
 theorem C03_keyvalue_rx_spec (s : Str) (hn : '\n' ∉ s) : kvMatch s = Grammar.keyValue s :=
@@ -18,5 +19,182 @@ theorem C03_section_rx_spec (s : Str) (hn : '\n' ∉ s) : hdrMatch s = Grammar.h
 theorem C03_classify_eq_spec (line : Str) (hn : '\n' ∉ line) :
     toSpec (lineShape (strip line)) = Grammar.classify line :=
   lineShape_eq_classify line hn
+
+/-! ## The multi-line clause: accepted exactly when the sections are properly nested and all closed
+
+The specification is the tree grammar of `ZCV/Spec/Nesting.lean`: a text is well formed when its classified,
+non-skipped lines (`shapes lines`) are the listing `flatten t` of a forest `t` of items (key/value, `<t n>…</t>`,
+`<t n/>`, `%import`).  The statements are about the parser driving the recording context `rec0` (every context call
+succeeds and is logged), from any line counter `n`, with any events `ctx0` already recorded and any definitions `defs`,
+on texts of any length and nesting depth whose lines are `Plain`: no line terminator inside a line, no `%define` and no
+`%include` line, and `$`-free values and `%import` arguments — so that substitution is the identity.
+(`%import` lines are *included*; `fuel`, `env`, `active` play no part without `%include`, and are arbitrary.) -/
+
+/-- the parser state before the first line: nothing open -/
+def st0 (ctx0 : List Ev0) (defs : List (Str × Str)) : PS (List Ev0) := { ctx := ctx0, stack := [], defs := defs }
+
+/-- **Acceptance = proper nesting.**  A text of `Plain` lines is accepted by `parse` if and only if its non-skipped
+    lines, classified by the documented line grammar, are the listing of a forest: every line is a key/value line, an
+    `%import`, a `<type [name]/>`, or belongs to a `<type [name]>` … `</type>` pair enclosing a well-formed body, the
+    closer naming the (lower-cased) type of its opener. -/
+theorem C03_accept_iff_nested (fuel : Nat) (env : Env) (active : List Str) (url : Option Str) (lines : List Str) (n : Nat)
+    (ctx0 : List Ev0) (defs : List (Str × Str)) (hp : ∀ l ∈ lines, Plain l) :
+    (∃ st', parseLines fuel env rec0 active url lines n (st0 ctx0 defs) = .ok st') ↔
+      ∃ t : List Node, (lines.map Grammar.classify).filter (· ≠ .skip) = flatten t := by
+  show _ ↔ Nested (shapes lines)
+  obtain ⟨hok, hopen, herr⟩ := parse_sim fuel env active url lines n (st0 ctx0 defs) hp
+  rw [nested_iff_mrun]
+  constructor
+  · rintro ⟨st', h⟩
+    cases hm : mrun [] (shapes lines) with
+    | none =>
+      obtain ⟨e, k, he, _⟩ := herr hm
+      rw [he] at h; cases h
+    | some p =>
+      obtain ⟨S', E⟩ := p
+      cases S' with
+      | nil => exact ⟨E, rfl⟩
+      | cons f S' =>
+        have := hopen _ _ hm (by simp only [ne_eq, reduceCtorEq, not_false_eq_true])
+        rw [this] at h; cases h
+  · rintro ⟨E, h⟩
+    obtain ⟨st', h1, _⟩ := hok E h
+    exact ⟨st', h1⟩
+
+/-- **Events in document order.**  When a text of `Plain` lines is accepted, and `t` is a forest whose listing is the
+    text, the context has been told exactly `events t` — each section announced, then its body, then its end with the
+    type and name of the *opener* (the same for `<t n/>` and `<t n>` `</t>`), each key with its value unchanged, each
+    `%import` with its argument stripped — after whatever was recorded before; no section is left open and the
+    definitions are untouched.  (`t` is unique: `C03_tree_unique`.) -/
+theorem C03_events_preorder (fuel : Nat) (env : Env) (active : List Str) (url : Option Str) (lines : List Str) (n : Nat)
+    (ctx0 : List Ev0) (defs : List (Str × Str)) (hp : ∀ l ∈ lines, Plain l) (st' : PS (List Ev0))
+    (h : parseLines fuel env rec0 active url lines n (st0 ctx0 defs) = .ok st')
+    (t : List Node) (ht : (lines.map Grammar.classify).filter (· ≠ .skip) = flatten t) :
+    st'.ctx.map toEv = ctx0.map toEv ++ events t ∧ st'.stack = [] ∧ st'.defs = defs := by
+  change shapes lines = flatten t at ht
+  obtain ⟨hok, _, _⟩ := parse_sim fuel env active url lines n (st0 ctx0 defs) hp
+  have hm : mrun [] (shapes lines) = some ([], events t) := by rw [ht]; exact mrun_flatten_nil t []
+  obtain ⟨st'', h1, h2, h3, h4⟩ := hok _ hm
+  rw [h1] at h
+  cases h
+  exact ⟨h3, h2, h4⟩
+
+/-- a properly nested text has exactly one tree: the listing determines the forest -/
+theorem C03_tree_unique (t t' : List Node) (h : flatten t = flatten t') : t = t' := flatten_injective h
+
+/-- **Every other text is a configuration syntax error, raised where the nesting breaks.**  If the non-skipped lines of
+    a text of `Plain` lines are not the listing of any forest, `parse` raises `ConfigurationSyntaxError` for this
+    resource (`e.url = url`), and its line number is determined by the grammar alone:
+    * either there is a line `k+1` (counting from 1; the parser was started with its counter at `n`, so it reports
+      `n+k+1`) such that the first `k` lines can still be continued to a properly nested text but the first `k+1` cannot
+      — a line of no documented shape, an unknown or argument-less directive, a closer that does not name the innermost
+      open section, or a closer with nothing open — and the error carries that line number (this `k` is unique:
+      `C03_first_bad_line_unique`);
+    * or the whole text can still be continued — sections are left open at the end — and the error carries the number
+      of the last line. -/
+theorem C03_reject_is_syntax (fuel : Nat) (env : Env) (active : List Str) (url : Option Str) (lines : List Str) (n : Nat)
+    (ctx0 : List Ev0) (defs : List (Str × Str)) (hp : ∀ l ∈ lines, Plain l)
+    (hno : ¬ ∃ t : List Node, (lines.map Grammar.classify).filter (· ≠ .skip) = flatten t) :
+    ∃ e, parseLines fuel env rec0 active url lines n (st0 ctx0 defs) = .error (.cfg e) ∧ e.kind = .syntax ∧ e.url = url ∧
+      ((∃ k, k < lines.length ∧ Completable (shapes (lines.take k)) ∧ ¬ Completable (shapes (lines.take (k + 1))) ∧
+          e.line = some ((n + k + 1 : Nat) : Int)) ∨
+       (Completable (shapes lines) ∧ e.line = some ((n + lines.length : Nat) : Int))) := by
+  change ¬ Nested (shapes lines) at hno
+  obtain ⟨_, hopen, herr⟩ := parse_sim fuel env active url lines n (st0 ctx0 defs) hp
+  cases hm : mrun [] (shapes lines) with
+  | none =>
+    obtain ⟨e, k, he, hk, hu, hlt, hline, hsome, hnone⟩ := herr hm
+    refine ⟨e, he, hk, hu, Or.inl ⟨k, hlt, ?_, ?_, hline⟩⟩
+    · rw [completable_iff_mrun]; exact hsome
+    · rw [completable_iff_mrun]
+      show ¬ (mrun [] (shapes (lines.take (k + 1)))).isSome = true
+      have : mrun [] (shapes (lines.take (k + 1))) = none := hnone
+      rw [this]; exact fun h => by cases h
+  | some p =>
+    obtain ⟨S', E⟩ := p
+    cases S' with
+    | nil => exact absurd ((nested_iff_mrun _).2 ⟨E, hm⟩) hno
+    | cons f S' =>
+      have he := hopen _ _ hm (by simp only [ne_eq, reduceCtorEq, not_false_eq_true])
+      refine ⟨_, he, rfl, rfl, Or.inr ⟨?_, rfl⟩⟩
+      rw [completable_iff_mrun, hm]; rfl
+
+/-- being completable is lost once and for all: a beginning of a completable beginning is completable -/
+theorem C03_completable_mono (lines : List Str) (j k : Nat) (hjk : j ≤ k)
+    (h : Completable (shapes (lines.take k))) : Completable (shapes (lines.take j)) := by
+  have e : lines.take k = lines.take j ++ (lines.take k).drop j := by
+    have := (List.take_append_drop j (lines.take k)).symm
+    rwa [List.take_take, Nat.min_eq_left hjk] at this
+  rw [e, shapes_append] at h
+  exact completable_prefix _ _ h
+
+/-- the line at which a text stops being completable is unique — it is the first such line -/
+theorem C03_first_bad_line_unique (lines : List Str) (k k' : Nat)
+    (h1 : Completable (shapes (lines.take k))) (h2 : ¬ Completable (shapes (lines.take (k + 1))))
+    (h1' : Completable (shapes (lines.take k'))) (h2' : ¬ Completable (shapes (lines.take (k' + 1)))) : k = k' := by
+  rcases Nat.lt_trichotomy k k' with h | h | h
+  · exact absurd (C03_completable_mono lines (k + 1) k' h h1') h2
+  · exact h
+  · exact absurd (C03_completable_mono lines (k' + 1) k h h1) h2'
+
+/-! ### which line it is that breaks a completable beginning (the cases listed in the property) -/
+
+/-- a key/value line, an `%import` line or a section opener (either spelling) can always follow: such a line is never
+    the one reported by `C03_reject_is_syntax` -/
+theorem C03_item_never_breaks (s : List Grammar.Shape) (x : Grammar.Shape) (h : Completable s)
+    (hx : (∃ k v, x = .kv k v) ∨ (∃ a, x = .import_ a) ∨ (∃ ty nm e, x = .open_ ty nm e)) : Completable (s ++ [x]) :=
+  completable_snoc_item x h hx
+
+/-- a line of no documented shape — which includes unknown and argument-less directives, classified `.bad` by
+    `Grammar.classify` — always breaks (and so would `%define`/`%include` lines, which `Plain` excludes and the tree
+    grammar does not describe) -/
+theorem C03_bad_line_breaks (s : List Grammar.Shape) (x : Grammar.Shape)
+    (hx : x = .bad ∨ x = .skip ∨ (∃ a, x = .define a) ∨ (∃ a, x = .include_ a)) : ¬ Completable (s ++ [x]) :=
+  not_completable_snoc_bad s x hx
+
+/-- a closer `</ty>` can follow exactly when `ty` is the type of the innermost section still open: what precedes it is a
+    completable beginning, then an opener `<ty [name]>`, then whole items.  Every other closer — mismatched, or surplus
+    because nothing is open — breaks. -/
+theorem C03_closer_ok_iff_innermost (s : List Grammar.Shape) (ty : Str) :
+    Completable (s ++ [.close ty]) ↔
+      ∃ pre nm body, s = pre ++ .open_ ty nm false :: flatten body ∧ Completable pre :=
+  completable_snoc_close s ty
+
+/-- a text all of whose beginnings are completable but which is not properly nested has a section left open: it is a
+    completable beginning, an opener, and whole items up to the end (the "unclosed section" case) -/
+theorem C03_unclosed_shape (s : List Grammar.Shape) (h : Completable s) (hn : ¬ Nested s) :
+    ∃ pre ty nm body, s = pre ++ .open_ ty nm false :: flatten body ∧ Completable pre :=
+  completable_not_nested s h hn
+
+/-! ### the hypotheses are satisfiable, the statements are not vacuous -/
+
+/-- a seven-line text (mixed case, padding, a comment, a blank line, both section spellings, an `%import`, a closer with
+    trailing blanks) made of `Plain` lines, and its tree -/
+example :
+    let lines := ["<A>".toList, " k  v w ".toList, "# c".toList, "".toList, "<b X/>".toList, "%import p.q".toList,
+      "</a >".toList]
+    (∀ l ∈ lines, '\n' ∉ l) ∧
+    (lines.map Grammar.classify).filter (· ≠ .skip) =
+      flatten [.sect "a".toList none [.kv "k".toList "v w".toList, .esect "b".toList (some "x".toList), .imp "p.q".toList]] ∧
+    events [.sect "a".toList none [.kv "k".toList "v w".toList, .esect "b".toList (some "x".toList), .imp "p.q".toList]] =
+      [.start "a".toList none, .value "k".toList "v w".toList, .start "b".toList (some "x".toList),
+       .stop "b".toList (some "x".toList), .imp "p.q".toList, .stop "a".toList none] := by
+  decide
+
+/-- `Plain` lines of every kind: opener, key/value, `%import`, closer, comment, and two malformed lines -/
+example : Plain "<A>".toList ∧ Plain " k  v w ".toList ∧ Plain "%import p.q".toList ∧ Plain "</a >".toList ∧
+    Plain "# c".toList ∧ Plain "<a".toList ∧ Plain "%define".toList := by
+  simp only [plain_iff]
+  decide
+
+/-- texts that are no listing of a forest: a mismatched closer (stuck at line 2), a surplus closer (line 1), a malformed
+    line (line 2), and an unclosed section (completable to the end) -/
+example :
+    (¬ Completable (shapes ["<a>".toList, "</b>".toList]) ∧ Completable (shapes ["<a>".toList])) ∧
+    ¬ Completable (shapes ["</a>".toList]) ∧
+    (¬ Completable (shapes ["k v".toList, "<a b c>".toList]) ∧ Completable (shapes ["k v".toList])) ∧
+    (Completable (shapes ["<a>".toList, "k".toList]) ∧ ¬ Nested (shapes ["<a>".toList, "k".toList])) := by
+  simp only [completable_iff_mrun, nested_iff_mrun_fst]
+  decide
 
 end ZCV.Props.C03
